@@ -50,6 +50,8 @@ func runC10(c *Ctx) {
 	// offsets of limit, table and records follow from the header length)
 	c09HeaderVerified(c, m, "C10.record-offsets")
 	c10HeaderLenRange(c, m, "C10.record-offsets")
+	// names of any content are stored as given (file.lookup hands newCounter the caller's name)
+	c03LookupTotal(c, m, "C10.record-offsets")
 	c10Offsets(c, m)
 	c10Alignment(c, m)
 	c10ExtendTail(c, m, "C10.page-tail")
